@@ -44,14 +44,14 @@ func specUnfragment(cues []cueSpec) []comp {
 	open := map[string]int{} // text -> index in out of the component that is still extendable
 	for _, i := range order {
 		c := cues[i]
-		if k, ok := open[c.T]; ok && c.S <= out[k].e {
+		if k, ok := open[textKey(c.T)]; ok && c.S <= out[k].e {
 			if c.E > out[k].e {
 				out[k].e = c.E
 			}
 			continue
 		}
 		out = append(out, comp{first: i, s: c.S, e: c.E})
-		open[c.T] = len(out) - 1
+		open[textKey(c.T)] = len(out) - 1
 	}
 	return out
 }
@@ -60,7 +60,7 @@ func onScreen(cs []cueSpec, t int64) string {
 	set := map[string]bool{}
 	for _, c := range cs {
 		if c.S <= t && t < c.E {
-			set[c.T] = true
+			set[textKey(c.T)] = true
 		}
 	}
 	var ks []string
@@ -146,7 +146,7 @@ func checkC11Inverse(c c11Case) string {
 	}
 	wantN, gotN := map[key]int{}, map[key]int{}
 	for i, cu := range c.Cues {
-		wantN[key{cu.S, cu.E, cu.T}]++
+		wantN[key{cu.S, cu.E, textKey(cu.T)}]++
 		it := got[i]
 		gotN[key{int64(it.StartAt), int64(it.EndAt), itemText(it)}]++
 		if int64(it.StartAt) != cu.S {
@@ -165,7 +165,7 @@ func checkC11Inverse(c c11Case) string {
 func freeOfTouching(cs []cueSpec) bool {
 	for i := range cs {
 		for j := i + 1; j < len(cs); j++ {
-			if cs[i].T == cs[j].T {
+			if textKey(cs[i].T) == textKey(cs[j].T) {
 				lo, hi := cs[i].S, cs[i].E
 				if cs[j].S > lo {
 					lo = cs[j].S
@@ -206,7 +206,7 @@ func c11NonTrivial(c c11Case) (bool, []string) {
 	}
 	texts := map[string]bool{}
 	for _, cu := range c.Cues {
-		texts[cu.T] = true
+		texts[textKey(cu.T)] = true
 	}
 	var ls []string
 	if merged {
@@ -227,7 +227,9 @@ func c11NonTrivial(c c11Case) (bool, []string) {
 func TestC11(t *testing.T) {
 	runWitnesses(t, "C11")
 
+	// "ab" and "a+b" show the same text with a different split into runs
 	texts3 := []string{"a", "b", "a|b"}
+	textsR := []string{"a", "b", "a|b", "ab", "a+b", "a|+b"}
 	// Exhaustive: every list (any order) of <=4 cues on the 0..N grid with 3 texts.
 	grid := func(name string, maxN int, max int64) {
 		sub(t, name, func(t *testing.T) {
@@ -279,7 +281,7 @@ func TestC11(t *testing.T) {
 
 	rapidCheck(t, "C11/random", tier(10000, 1000000), func(rt *rapid.T) {
 		maxT := rapid.SampledFrom([]int64{12 * nsMs, 200 * nsMs, 3600 * 1000 * nsMs}).Draw(rt, "range")
-		cues := genCues(rt, 0, 9, maxT, texts3)
+		cues := genCues(rt, 0, 9, maxT, textsR)
 		c := c11Case{Cues: cues}
 		nt, ls := c11NonTrivial(c)
 		ev.Case(nt, fmt.Sprintf("%v", c), append(ls, "random")...)
@@ -291,7 +293,7 @@ func TestC11(t *testing.T) {
 
 	rapidCheck(t, "C11/inverse", tier(6000, 500000), func(rt *rapid.T) {
 		maxT := rapid.SampledFrom([]int64{30 * nsMs, 5000 * nsMs, 3600 * 1000 * nsMs}).Draw(rt, "range")
-		raw := genCues(rt, 0, 8, maxT, texts3)
+		raw := genCues(rt, 0, 8, maxT, textsR)
 		sort.SliceStable(raw, func(i, j int) bool { return raw[i].S < raw[j].S })
 		// construction instead of rejection: drop cues that touch an earlier same-text cue
 		var cues []cueSpec
